@@ -12,6 +12,7 @@
 from __future__ import annotations
 
 import sys
+import time
 import zlib
 
 MOD = (1 << 61) - 1
@@ -37,6 +38,7 @@ class StepMonitor:
         self.marker = marker
         self.n = 0
         self.h = 0
+        self.cpu0 = 0.0
         self.cap = 0
         self.abort_at = 0
         self.active = False
@@ -76,6 +78,7 @@ class StepMonitor:
         """begin a monitored call"""
         self.n = 0
         self.h = 0
+        self.cpu0 = time.process_time()
         self.cap = cap
         self.abort_at = abort_at
         self.lines_hit = {} if record_lines else None
